@@ -335,6 +335,13 @@ def check_c17(seed, tier):
                     extra = rng.randrange(1, 10 ** nd)
                     extra_us = extra * 10 ** (3 - nd)
                     cfg["leader_overrides"] = {"dataset_summary.scene_center_time": f"{y_:04d}{m_:02d}{d_:02d}{hh:02d}{mi:02d}{ss:02d}{msec:03d}{extra:0{nd}d}"}
+                extra_us_fp = 0
+                if rng.random() < 0.5 and ms < 86399999:
+                    # the first orbit point's time of day is a DECIMAL number of seconds: digits below the millisecond belong to it
+                    extra_us_fp = rng.choice([1, 250, 456, 500, 999, rng.randint(1, 999)])
+                    us_ = ms * 1000 + extra_us_fp
+                    cfg.setdefault("leader_overrides", {})["platform_position.datetime_of_first_point.seconds_of_day"] = \
+                        rng.choice([f"{us_ / 10**6:.6f}", f"{us_ / 10**6:.15E}"])
                 prod = products.build(cfg)
                 path, clean = products.place(prod, "memory")
                 evals += 1
@@ -356,6 +363,8 @@ def check_c17(seed, tier):
                         w = want if k != "creation" else np.datetime64(int(want.astype("int64")) // 10**7 * 10**7, "ns")
                         if k == "scene_center":
                             w = want + np.timedelta64(extra_us, "us")
+                        if k == "first_point":
+                            w = want + np.timedelta64(extra_us_fp, "us")
                         if np.datetime64(v, "ns") != w:
                             viol.append({"case": case, "what": f"{k} time reads {np.datetime64(v, 'ns')} but the instant written is {w}",
                                          "key": "attitude-time" if k == "attitude" and np.datetime64(v, "ns") == w + np.timedelta64(1, "D") else None})
